@@ -115,6 +115,7 @@ func ruleC08NewSize(e *Env) {
 	kZU := "lookup#1(*size." + e.vname("size", "zeroUnits") + ",unit)"
 	kUTV := "lookup#1(*size." + e.vname("size", "unitToValues") + ",unit)"
 	kZUval := "lookup(*size." + e.vname("size", "zeroUnits") + ",unit)"
+	mult := "lookup#0(*size." + e.vname("size", "unitToValues") + ",unit)"
 	keyOf := func(a, b pred.Val) (string, bool) {
 		as, bs := a.String(), b.String()
 		switch {
@@ -133,6 +134,10 @@ func ruleC08NewSize(e *Env) {
 			// narrower type wraps
 			return kRound, true
 		case strings.HasPrefix(as, mulTerm+"#0(") && bs == "0":
+			return kHi, true
+		case as == "conv[uint64](value)" && bs == "/(18446744073709551615,"+mult+")":
+			// the other exact overflow test: value > MaxUint64 / multiplier ⇔ the product needs more than 64 bits
+			// (multiplier ≥ 1: C08.tab; that the divisor is not zero is C18.T1's obligation)
 			return kHi, true
 		}
 		return "", false
@@ -227,6 +232,8 @@ func ruleC08NewSize(e *Env) {
 			gv = "conv(value)"
 		case strings.HasPrefix(gv, mulTerm+"#1(conv[uint64](value),lookup#0(*size."+e.vname("size", "unitToValues")+",unit))"):
 			gv = "lo"
+		case gv == "*(conv[uint64](value),"+mult+")" || gv == "*("+mult+",conv[uint64](value))":
+			gv = "lo" // the 64-bit product, exact where the overflow test has passed
 		}
 		got := gv + " / " + sizeErrType(t[1])
 		// the unit "B" multiplies by one: returning the value itself is the exact product (its high word is zero)
